@@ -344,4 +344,43 @@ theorem combine1_sel (N : Nat) (s1 s2 : PSlice) (h1 : NonNegSl s1) (h2 : NonNegS
     simp only [startN, stepN] at this ⊢
     rw [this]
 
+theorem mem_natSel (N a b k x : Nat) (hk : 1 ≤ k) :
+    x ∈ natSel N a b k ↔ a ≤ x ∧ x < min b N ∧ (x - a) % k = 0 := by
+  constructor
+  · intro h
+    have hlt := mem_natSel_lt N a b k x hk h
+    unfold natSel at h
+    rw [List.mem_range'] at h
+    obtain ⟨i, hi, rfl⟩ := h
+    have hpos : 0 < min b N - min a N := by
+      rcases Nat.eq_zero_or_pos (min b N - min a N) with h0 | h0
+      · rw [h0, (cdiv_eq_zero_iff 0 k hk).mpr rfl] at hi; omega
+      · exact h0
+    have hA : min a N = a := by omega
+    rw [hA] at hlt ⊢
+    refine ⟨by omega, hlt, ?_⟩
+    have : a + k * i - a = k * i := by omega
+    rw [this, Nat.mul_mod_right]
+  · rintro ⟨h1, h2, h3⟩
+    unfold natSel
+    rw [List.mem_range']
+    have hA : min a N = a := by omega
+    refine ⟨(x - a) / k, ?_, ?_⟩
+    · have hdm := Nat.div_add_mod (x - a) k
+      rw [h3] at hdm
+      have : ¬ (min b N - min a N ≤ (x - a) / k * k) := by
+        rw [hA, Nat.mul_comm]; omega
+      have := mt (cdiv_le_iff (min b N - min a N) k ((x - a) / k) hk).mp this
+      omega
+    · have hdm := Nat.div_add_mod (x - a) k
+      rw [h3] at hdm
+      rw [hA]; omega
+
+/-- membership characterisation of the numpy selection: position `x` is selected iff it lies in
+    `[start, min stop N)` on the stride grid anchored at `start` -/
+theorem mem_sel_iff (N : Nat) (s : PSlice) (h : NonNegSl s) (x : Nat) :
+    x ∈ sel N s ↔ startN s ≤ x ∧ x < min (stopN N s) N ∧ (x - startN s) % stepN s = 0 := by
+  rw [sel_eq_natSel N s h]
+  exact mem_natSel N _ _ _ x (stepN_pos h)
+
 end Pydap
